@@ -7,7 +7,7 @@ from sa.astx import dotted, src
 from sa.effects import module_accesses
 from sa.selftest import Mutant, Silent
 from sa.source import AnalysisError
-from sa.props._lib_a import (DEFER, Q, RunShape, group, _zero_fact, deferred_fact, attr_of, avoiding_path, call_nodes, calls_of, catching_handlers, const_int,
+from sa.props._lib_a import (DEFER, Q, RunShape, group, fpath, _zero_fact, deferred_fact, attr_of, avoiding_path, call_nodes, calls_of, catching_handlers, const_int,
                              exc_escape, facts, handler_catches_all, handler_names, ident_fact, is_const, is_name, known_bool,
                              known_zero, method_call, name_assign_nodes, no_exc, params, real_func, stmt_nodes, targets_values)
 
@@ -106,6 +106,21 @@ def check(ctx):
                 ctx.check(ok, "chain/lifo", ctx.construct(q, c),
                           "the chain stack is pushed/popped at inconsistent ends: a finished Deferred other than the current one is removed")
         ctx.check(bool(chain_pops), "chain/lifo", q + " | <pop of the chain stack>", "a finished Deferred is never removed from the chain stack")
+        # Exits of the inner loop, classified by meaning (flag-aware path search, so `finished` flags and while/else are read alike):
+        #  (i) callbacks exhausted and (ii) break after pause-and-chain: the current Deferred is popped before the stack is re-read;
+        #  (iii) break after the _CONTINUE hand-over: it is NOT popped (the waiting Deferred was pushed above it) - rule continue/stack-not-popped-early.
+        pushes = call_nodes(g, lambda c: method_call(c, "append", chain) and len(c.args) == 1 and is_name(c.args[0], S.chainee))
+        rebind = set(S.binds)
+        for r in S.regs:
+            wit = fpath(g, S.binds, rebind, avoid=set(chain_pops) | rebind, through=[r])
+            ctx.check(wit is None, "chain/popped-after-chaining", ctx.construct(q, calls_of(g, r, S._is_reg)[0]),
+                      "after pause-and-chain the current Deferred stays on the chain stack: the next round re-reads it, finds it paused and "
+                      "returns from the whole walk, abandoning the Deferreds below it (an inner Deferred's late-added callback never runs when the "
+                      "outer one re-chains)", witness=g.describe(wit))
+        wit = fpath(g, S.binds, rebind, avoid=set(chain_pops) | rebind | set(S.regs) | set(pushes))
+        ctx.check(wit is None, "chain/popped-when-exhausted", q + " | <inner loop ran out of callbacks>",
+                  "a Deferred whose callbacks are exhausted is not popped from the chain stack before the stack is re-read (the walk spins on it / "
+                  "never returns to the Deferred that supplied its result)", witness=g.describe(wit))
 
     # adders: slot layout, run-at-once on a called Deferred, return self
     with group(ctx, "adders"):
@@ -594,6 +609,17 @@ MUTANTS = [
     Mutant("callbacks-peeked-not-removed", D, "                item = current.callbacks.pop(0)\n", "                item = current.callbacks[0]\n", expect_rule="callbacks/fifo-drain"),
     Mutant("slot-index-negated", D, "                if not isinstance(current.result, Failure):\n                    callback, args, kwargs = item[0]\n                else:\n                    # type note: Callback signature also works for Errbacks in\n                    #     this context.\n                    callback, args, kwargs = item[1]\n",
            "                callback, args, kwargs = item[not isinstance(current.result, Failure)]\n", expect_rule="callout/slot-selection"),
+    Mutant("while-else-cleanup-skipped-after-rechaining", D, "            finished = True\n            current._chainedTo = None\n", "            current._chainedTo = None\n",
+           more=[(D, "                    # Delay cleaning this Deferred and popping it from the chain\n                    # until after we've dealt with chainee.\n                    finished = False\n                    break\n",
+                  "                    # Delay cleaning this Deferred and popping it from the chain\n                    # until after we've dealt with chainee.\n                    break\n"),
+                 (D, "            if finished:\n                # As much of the callback chain", "            else:\n                # As much of the callback chain")], expect_rule="chain/popped-after-chaining"),
+    Mutant("while-else-handover-pops-the-waiter", D, "            finished = True\n            current._chainedTo = None\n", "            current._chainedTo = None\n",
+           more=[(D, "                    # Delay cleaning this Deferred and popping it from the chain\n                    # until after we've dealt with chainee.\n                    finished = False\n                    break\n",
+                  "                    # Delay cleaning this Deferred and popping it from the chain\n                    # until after we've dealt with chainee.\n                    chain.pop()\n                    break\n"),
+                 (D, "            if finished:\n                # As much of the callback chain", "            else:\n                # As much of the callback chain")] + [(D, "                            currentResult.callbacks.append(current._continuation())\n                            break\n", "                            currentResult.callbacks.append(current._continuation())\n                            chain.pop()\n                            break\n")],
+           expect_rule="continue/stack-not-popped-early"),
+    Mutant("exhausted-deferred-never-popped", D, "                # This Deferred is done, pop it from the chain and move back up\n                # to the Deferred which supplied us with our result.\n                chain.pop()\n",
+           "                if isinstance(current.result, Failure):\n                    chain.pop()\n", expect_rule="chain/popped"),
 ]
 SILENT = [
     Silent("rename-locals", D, "item = current.callbacks.pop(0)\n                if not isinstance(current.result, Failure):\n                    callback, args, kwargs = item[0]",
@@ -621,4 +647,12 @@ SILENT = [
     Silent("peek-then-delete-front", D, "                item = current.callbacks.pop(0)\n", "                item = current.callbacks[0]\n                del current.callbacks[0]\n"),
     Silent("slot-index-by-bool", D, "                if not isinstance(current.result, Failure):\n                    callback, args, kwargs = item[0]\n                else:\n                    # type note: Callback signature also works for Errbacks in\n                    #     this context.\n                    callback, args, kwargs = item[1]\n",
            "                callback, args, kwargs = item[isinstance(current.result, Failure)]\n"),
+    Silent("while-else-with-explicit-pop-after-rechaining", D, "            finished = True\n            current._chainedTo = None\n", "            current._chainedTo = None\n",
+           more=[(D, "                    # Delay cleaning this Deferred and popping it from the chain\n                    # until after we've dealt with chainee.\n                    finished = False\n                    break\n",
+                  "                    # Delay cleaning this Deferred and popping it from the chain\n                    # until after we've dealt with chainee.\n                    break\n"),
+                 (D, "            if finished:\n                # As much of the callback chain", "            else:\n                # As much of the callback chain")] + [(D, "                            currentResult.callbacks.append(current._continuation())\n                            break\n",
+                                  "                            currentResult.callbacks.append(current._continuation())\n                            if current._debugInfo is not None:\n                                current._debugInfo.failResult = None\n                            chain.pop()\n                            break\n")]),
+    Silent("flag-renamed-and-inverted", D, "            finished = True\n            current._chainedTo = None\n", "            handedOver = False\n            current._chainedTo = None\n",
+           more=[(D, "                    finished = False\n                    break\n", "                    handedOver = True\n                    break\n"),
+                 (D, "            if finished:\n                # As much of the callback chain", "            if not handedOver:\n                # As much of the callback chain")]),
 ]
